@@ -167,6 +167,9 @@ def soundness(args):
 
 
 def main(name, args):
+    if name == "kernel":
+        from selftest import kernel
+        return kernel.main()
     if name == "soundness":
         return soundness(args)
     if name == "determinism":
